@@ -435,6 +435,44 @@ def exit_status_rules(world, prog, rep, rule):
         rep.ob(rule, site(main, "bit 4 survives to the return"), not bad,
                "no later store to exit_value can clear FSCK_UNCORRECTED unless the fs is valid: %s" %
                [b.where() + " " + b.text()[:40] for b in bad])
+    # the verdict, once lost, is not restored: a declined problem clears EXT2_FLAG_VALID inside fix_problem(); an
+    # ext2fs_mark_valid() that can run after a call from which fix_problem() is reachable - on the same handle, i.e.
+    # with no re-open in between - would hand a clean exit status to a run that reported a problem and left it.
+    may_unmark = prog.may(lambda f, n: is_call(n, "ext2fs_unmark_valid"))
+    marks_v = calls_to(main, "ext2fs_mark_valid")
+    opens = calls_to(main, "try_open_fs", "ext2fs_open2", "ext2fs_open")
+    losers = [c for c in main.call_nodes()
+              if c not in marks_v and any(g.key in may_unmark for g in prog.callees(main, c.ev["x"]))]
+    rep.floor(rule + " calls in main from which a problem can be declined", len(losers), 5)
+    r = main.reach([m for c in losers for m in main.after(c)], avoid=opens)
+    # accepted form: fix_problem() records the declined problem in a context flag next to its un-mark, and main
+    # re-applies the verdict under that flag after the late mark, before the passes run
+    fp = prog.fn("fix_problem", "e2fsck/problem.c")
+    decl = set()
+    for u in calls_to(fp, "ext2fs_unmark_valid"):
+        for s_ in fp.events("S"):
+            if s_.bid == u.bid and T.last_field(s_.ev["lhs"]) == ("e2fsck_struct", "flags") and s_.ev.get("o") == "|=":
+                decl |= {m for m in T.macros(s_.ev.get("rhs") or {}) if m.startswith("E2F_FLAG_")}
+    runs = calls_to(main, "e2fsck_run")
+    reapply = []
+    for u in calls_to(main, "ext2fs_unmark_valid"):
+        for (bid, truth, atom) in main.control_literals(u):
+            if truth and any(lit_tests_bit(atom, m, "flags") for m in decl):
+                reapply.append(main.block_end(bid))
+    for i, mv in enumerate(sorted(marks_v, key=lambda n: n.line)):
+        late = mv in r
+        if late and reapply and runs and main.must_pass_after(mv, reapply, to=runs) and \
+                not any(m2 in main.reach([x for b_ in reapply for x in main.after(b_)], avoid=runs) for m2 in marks_v):
+            late = False        # the verdict of a declined problem is put back before the passes start
+        wit = None
+        if late:
+            wp = main.witness_path([m for c in losers for m in main.after(c)], [mv], avoid=opens)
+            wit = {"entry": "main", "lines": line_path(wp or [])}
+        rep.ob(rule, site(main, "ext2fs_mark_valid only before any problem can have been declined#%d" % i), not late,
+               "no call from which fix_problem()/ext2fs_unmark_valid() is reachable precedes ext2fs_mark_valid (line %d) on the same "
+               "handle%s" % (mv.line, "" if not late else ": e.g. %s" %
+                              sorted({T.call_names(c.ev["x"])[0] for c in losers if mv in main.reach(main.after(c), avoid=opens)
+                                      and T.call_names(c.ev["x"])})[:4]), wit)
     rets = [n for n in main.events("R") if main.node(cl, 0) in main.reach_back([n])]
     ok = any(T.path(n.ev.get("x")) == "exit_value" for n in rets)
     rep.ob(rule, site(main, "exit status returned"), ok, "main returns exit_value after cleanup")
